@@ -327,13 +327,19 @@ func (l *link) Send(req resources.TwoPCRequest, reply *resources.TwoPCResponse) 
 		var rp resources.TwoPCResponse
 		err := <-l.inner.Send(req, &rp)
 		ver := c.observeVersion(l.dst)
+		// after a time-out the RPC is still in flight and net/rpc may yet decode a late reply into rp: it is only
+		// read when the call completed (as the resource itself does)
+		var got resources.TwoPCResponse
+		if err == nil {
+			got = rp
+		}
 		c.mu.Lock()
-		r.delivered, r.reply, r.err, r.replyReturned, r.verAfter, r.failedAt = err == nil, rp, err, err == nil, ver, time.Now()
+		r.delivered, r.reply, r.err, r.replyReturned, r.verAfter, r.failedAt = err == nil, got, err, err == nil, ver, time.Now()
 		c.finishLocked(r)
 		c.mu.Unlock()
 		c.delivered.Add(1)
 		if err == nil {
-			*reply = rp
+			*reply = got
 		}
 		ch <- err
 		return ch
